@@ -254,6 +254,18 @@ func cmdRun(args []string) int {
 		if v.Known != "" {
 			want = 4
 		}
+		if code == 0 && v.Known == "" {
+			// Alone, in a fresh process, the scenario holds: does the violation need what
+			// earlier scenarios of the same worker left behind in the process (a
+			// package-level cache or pool in the library)? Re-run growing windows of the
+			// worker's sequence in fresh processes.
+			if rp := sequenceReplay(ws, prop, *tier, seed, cfg.Workers, v, knownPath, replayDir); rp != "" {
+				v.Replay = rp
+				v.Class += ":needs-state-from-earlier-scenarios-in-the-process"
+				unlisted = append(unlisted, v)
+				continue
+			}
+		}
 		if code != want {
 			fmt.Fprintf(os.Stderr, "simcheck: harness determinism trouble: minimised replay %s did not reproduce in a fresh process (exit %d)\n%s\n", v.Replay, code, clipStr(out, 3000))
 			return 2
@@ -411,6 +423,58 @@ func vacuous(prop string, m *workerResult) string {
 	return ""
 }
 
+type seqReplayFile struct {
+	Kind     string `json:"kind"` // "sequence"
+	Property string `json:"property"`
+	Class    string `json:"class"`
+	Tier     string `json:"tier"`
+	Seed     uint64 `json:"seed"`
+	From     int    `json:"from"`
+	To       int    `json:"to"`
+	Step     int    `json:"step"`
+	Message  string `json:"message"`
+}
+
+func runSeq(ws *Workspace, f seqReplayFile, knownPath string) (int, string) {
+	cmd := exec.Command(ws.Exec, "seq", "--prop", f.Property, "--tier", f.Tier, "--seed", fmt.Sprint(f.Seed), "--from", fmt.Sprint(f.From), "--to", fmt.Sprint(f.To),
+		"--step", fmt.Sprint(f.Step), "--class", f.Class, "--known", knownPath)
+	out, err := cmd.CombinedOutput()
+	if err == nil {
+		return 0, string(out)
+	}
+	if ee, ok := err.(*exec.ExitError); ok {
+		return ee.ExitCode(), string(out)
+	}
+	return 2, err.Error()
+}
+
+// sequenceReplay looks for the shortest window of the worker's own scenario
+// sequence ending at the violating scenario that reproduces the violation in a
+// fresh process, and writes it as a replay file.
+func sequenceReplay(ws *Workspace, prop, tier string, seed uint64, workers int, v violationRec, knownPath, replayDir string) string {
+	first := v.Index % workers
+	for window := 1; ; window *= 2 {
+		from := v.Index - window*workers
+		if from < first {
+			from = first
+		}
+		f := seqReplayFile{Kind: "sequence", Property: prop, Class: v.Class, Tier: tier, Seed: seed, From: from, To: v.Index, Step: workers}
+		code, out := runSeq(ws, f, knownPath)
+		if code == 1 {
+			f.Message = clipStr(out, 4000)
+			b, _ := json.MarshalIndent(f, "", " ")
+			path := filepath.Join(replayDir, fmt.Sprintf("%s-seq-s%d-i%d-%d.json", prop, seed, from, v.Index))
+			if ioutil.WriteFile(path, b, 0644) != nil {
+				return ""
+			}
+			return path
+		}
+		if from == first || window > 1<<20 {
+			return ""
+		}
+	}
+}
+
 func clipStr(s string, n int) string {
 	if len(s) > n {
 		return s[:n] + "…"
@@ -469,6 +533,23 @@ func cmdReplay(args []string) int {
 	defer ws.Cleanup()
 	if err != nil {
 		fmt.Fprintln(os.Stderr, "simcheck:", err)
+		return 2
+	}
+	if b, err := ioutil.ReadFile(args[0]); err == nil && strings.Contains(string(b), "\"kind\": \"sequence\"") {
+		var f seqReplayFile
+		if json.Unmarshal(b, &f) != nil {
+			fmt.Fprintln(os.Stderr, "simcheck: bad sequence replay file")
+			return 2
+		}
+		code, out := runSeq(ws, f, filepath.Join(verifDir(), "known_findings.json"))
+		fmt.Print(out)
+		if code == 1 || code == 3 {
+			fmt.Printf("VIOLATION property=%s replay=%s\n", f.Property, args[0])
+			return 1
+		}
+		if code == 0 {
+			return 0
+		}
 		return 2
 	}
 	if b, err := ioutil.ReadFile(args[0]); err == nil && strings.Contains(string(b), "\"class\": \"c15:cross-process\"") {
